@@ -246,6 +246,35 @@ type (
 		MidOver
 		Last int `json:"last"`
 	}
+	// tag forms: several options, unknown options, non-ASCII and punctuated names, other keys before json, empty forms
+	TagForms struct {
+		A int    `json:"a,omitempty,omitzero"`
+		B string `json:"b,foo,omitempty"`
+		C int    `json:"é"`
+		D int    `json:"a.b"`
+		E int    `yaml:"y" json:"e2"`
+		F int    `json:""`
+		G int    `json:","`
+		H *int   `json:"h,omitzero,omitempty"`
+		I int    `json:"i,"`
+		J []int  `json:"j,omitempty,"`
+		K bool   `json:"k,omitzero,unknown"`
+	}
+	// an outer field hides a promoted one by its Go name although the JSON names differ:
+	// encoding/json still emits the promoted field
+	ShadowGoName struct {
+		Inner
+		X string `json:"z"`
+	}
+	ShadowGoNameDash struct {
+		Inner
+		X int `json:"-"`
+	}
+	// the same JSON name at depth 1 (through Inner2) and depth 2 (through Mid.Inner)
+	DepthConflict struct {
+		Mid
+		Inner2
+	}
 )
 
 // Catalog returns the declared catalogue.
@@ -259,7 +288,7 @@ func Catalog() []T {
 		Inner{}, EmbVal{}, EmbPtr{}, Mid{}, Emb2{}, Emb2Ptr{}, ShadowAfter{}, ShadowBefore{}, Collide{}, CollideTagWins{}, EmbTagged{}, EmbTaggedPtr{}, EmbNamedInt{},
 		SameLevel{}, SameLevelMixed{}, EmbHidden{}, Twice{}, Ints{}, Ptrs{}, Opt{}, NamedStruct{}, &NamedStruct{}, []NamedStruct{}, map[string]NamedStruct{},
 		NamedSlice{}, NamedMap{}, NamedU8(0), NamedF32(0), MyInt(0), MyStr(""), MyBool(false), MyFloat(0), MySlice{}, MyMap{}, Described{},
-		NoFields{}, EmptyS{}, HoldsEmpty{}, SameTag{}, TopOver{}, MidOver{}, []EmbVal{}, map[string]*EmbPtr{}, [2]Opt{}, struct {
+		NoFields{}, EmptyS{}, HoldsEmpty{}, SameTag{}, TopOver{}, MidOver{}, TagForms{}, ShadowGoName{}, ShadowGoNameDash{}, DepthConflict{}, []ShadowGoName{}, []EmbVal{}, map[string]*EmbPtr{}, [2]Opt{}, struct {
 			A EmbVal
 			B *ShadowAfter
 		}{},
